@@ -105,6 +105,13 @@ def _multi():
     mds = ("ds", "mbase", {"params": [("opt", "A")], "dispatch": ("optkey", "D"), "overloads": [("y", ("opt", "B"))], "cache": "none"})
     mm2 = ("apply", ("mapvalues", mds, [("D", ("opt", "M"))]), ("fn", "f_list"))
     out.append(("multi:consumer of map over dataset dispatch", [("ds", "user", {"params": [mm2]})], [A3, B3, M4]))
+    # an overload expressed through derivatives of the very dataset it overloads: evaluating it nests evaluations
+    # that all go through ONE shared cache object (derivatives share their parent's cache)
+    da = ("dswo", ("dsref", "table"), {"D": "file", "A": 1})
+    db = ("dswo", ("dsref", "table"), {"D": "file", "A": 2})
+    for nm, ov in (("dataset overload", ("ds", "both", {"params": [da, db]})), ("plain overload", ("list", [da, db]))):
+        table = ("ds", "table", {"params": [("opt", "A")], "dispatch": ("optkey", "D"), "late_overloads": [("both", ov)]})
+        out.append((f"multi:self-derivative {nm}", [table], [("A", [ABSENT, 1, 2, 3]), ("D", [ABSENT, "file", "both"])]))
     sw = ("switch", ("optkey", "D"), [("x", inner), ("y", ("ds", "other", {"params": [("opt", "B")]}))], ("val", "dflt"))
     out.append(("multi:cached switch", [("cached", sw, "c"), inner], [A3, B3, ("D", [ABSENT, "x", "y", "zz"])]))
     co = ("coalesce", [inner, ("ds", "other", {"params": [("opt", "B")]}), ("val", "none")])
